@@ -15,6 +15,10 @@ CONSTANTS
   StrideOff = 0
   ReorderMode = "bylayout"
   ZeroGuard = "guarded"
+  WSNum = 1
+  WSDen = 1024
+  WScale <- MCWScale
+  SummarySource = "gathered"
   Gens = {1,2,3}
   Ordered = FALSE
   Export = FALSE
@@ -23,6 +27,7 @@ INVARIANT AccIsTwoPass
 INVARIANT MeanIsWeightedMean
 INVARIANT VarianceIsTwoPass
 INVARIANT ZeroWeightLemma
+INVARIANT WeightScaleLemma
 INVARIANT ScheduleIndependent
 INVARIANT NoError
 INVARIANT DirectVarLemma
